@@ -149,7 +149,8 @@ INSTANCES = [
     dict(id='Integrate_Gauss_Legendre(values)', fn=L + 'Integrate_Gauss_Legendre',
          sel=lambda f: f.params[0]['ty'].startswith('std::vector'),
          rows=shapes(**{'len(function_values)': D, 'len(roots_and_weights)': D}),
-         spec=lambda r: r['len(function_values)'] != r['len(roots_and_weights)'], uses=unchecked_subscript),
+         spec=lambda r: r['len(function_values)'] != r['len(roots_and_weights)'], uses=unchecked_subscript,
+         other=[('loop', 'loop-guard: every row of the rule table holds a root and a weight')]),
     # ---- distributions, samplers, likelihoods
     dict(id='PMF_Binomial', fn=L + 'PMF_Binomial', rows=shapes(p=R), spec=lambda r: r['p'] < 0 or r['p'] > 1, uses=None),
     dict(id='CDF_Binomial', fn=L + 'CDF_Binomial', rows=shapes(p=R), spec=lambda r: r['p'] < 0 or r['p'] > 1, uses=None),
@@ -192,6 +193,7 @@ INSTANCES = [
 # request that may be meaningful; 'environment' = depends on the file system; 'data-guard' = depends on values.
 CLASSIFIED = [
     (L + 'Transpose_Lists', 'size()', 'loop-guard: ragged list of lists'),
+    (L + 'Integrate_Gauss_Legendre', 'roots_and_weights[i].size()', 'loop-guard: every row of the rule table holds a root and a weight'),
     (L + 'Minimization::minimize', 'empty()', 'data-guard: a simplex without points (tables of length 0)'),
     (L + 'Integrate_MC_Vegas', 'isnan', 'give-up: integral became NaN'),
     (L + 'Matrix::Matrix', 'size() != columns', 'loop-guard: ragged matrix entries'),
